@@ -55,6 +55,7 @@ type c07Val struct {
 	Seq  []string `json:"seq"`
 	Qual []int    `json:"qual"`
 	MM   []c07MM  `json:"mm"`
+	Feat string   `json:"feat"` // the feature table (record mode; histories of the model carry none)
 }
 
 type c07Op struct {
@@ -72,6 +73,8 @@ type c07Op struct {
 	I       int      `json:"i"`
 	X       string   `json:"x"`
 	QX      int      `json:"qx"`
+
+	prebuilt *obiseq.BioSequence // "new": an object made by the library itself (read pairing), V is its observed value
 }
 
 type c07Slot struct {
@@ -121,7 +124,7 @@ func mmKey(m c07MM) string {
 	return strings.ToUpper(fmt.Sprintf("(%s:%02d)->(%s:%02d)", m.X, m.QX, m.Y, m.QY))
 }
 
-var mmKeyRe = regexp.MustCompile(`^\((.):(\d\d)\)->\((.):(\d\d)\)$`)
+var mmKeyRe = regexp.MustCompile(`^\((.):(\d+)\)->\((.):(\d+)\)$`) // the property fixes the transform, not the padding
 
 func buildSeq(id string, v c07Val) *obiseq.BioSequence {
 	s := []byte(strings.Join(v.Seq, ""))
@@ -142,6 +145,11 @@ func buildSeq(id string, v c07Val) *obiseq.BioSequence {
 		}
 		b.SetAttribute("pairing_mismatches", m)
 	}
+	if v.Feat != "" {
+		f := make([]byte, len(v.Feat)) // the record owns its feature table (what the flat-file readers hand over)
+		copy(f, v.Feat)
+		b.SetFeatures(f)
+	}
 	return b
 }
 
@@ -156,6 +164,7 @@ func observe(b *obiseq.BioSequence) c07Val {
 			v.Qual = append(v.Qual, int(q))
 		}
 	}
+	v.Feat = b.Features()
 	if b.HasAttribute("pairing_mismatches") {
 		m, ok := b.GetIntMap("pairing_mismatches")
 		if !ok {
@@ -254,7 +263,11 @@ func (h *realHeap) apply(op c07Op) (ret *obiseq.BioSequence, problem string) {
 	}()
 	switch op.Op {
 	case "new":
-		h.objs[op.R] = buildSeq(fmt.Sprintf("o%d", op.R), op.V)
+		if op.prebuilt != nil {
+			h.objs[op.R] = op.prebuilt
+		} else {
+			h.objs[op.R] = buildSeq(fmt.Sprintf("o%d", op.R), op.V)
+		}
 	case "copy":
 		h.objs[op.R] = h.objs[op.O].Copy()
 	case "sub":
